@@ -1,10 +1,12 @@
 #!/bin/sh
-# tools/confirm_seed.sh <ID>   : confirm an agent-made seed in its own worktree /tmp/wt_<ID> (suite passes, demo fails with / passes without the change)
+# tools/confirm_seed.sh <ID>   : confirm an agent-made seed in its own worktree /tmp/wt_<ID>
+# (worktree reset to HEAD + patch.diff; suite passes with the change; demo.py exits 1 with and 0 without the change)
 ID=$1; WT=/tmp/wt_$ID; SD=/tmp/seed_$ID
 cd $WT || exit 2
-git diff > /tmp/confirm_$ID.diff
-if ! diff -q /tmp/confirm_$ID.diff $SD/patch.diff >/dev/null; then echo "$ID: worktree diff differs from patch.diff"; fi
+git checkout -q -- . && git clean -fdq && git apply $SD/patch.diff || { echo "$ID: patch does not apply"; exit 2; }
 S=$(/venv/bin/python -m pytest -q -p no:cacheprovider --timeout=900 2>&1 | tail -1)
 /venv/bin/python $SD/demo.py > /tmp/confirm_$ID.with 2>&1; W=$?
-git stash -q; /venv/bin/python $SD/demo.py > /tmp/confirm_$ID.without 2>&1; WO=$?; git stash pop -q
+git apply -R $SD/patch.diff; git checkout -q -- Resources 2>/dev/null
+/venv/bin/python $SD/demo.py > /tmp/confirm_$ID.without 2>&1; WO=$?
+git checkout -q -- . ; git apply $SD/patch.diff
 echo "$ID suite: $S | demo with change: exit $W | without: exit $WO | lines changed: $(grep -c '^[-+][^-+]' $SD/patch.diff)"
